@@ -61,10 +61,10 @@ MencObs(k, w3, w2, w1, w0) ==
 Unread(b) == SubSeq(Block(b[1]), b[3] + 1, b[2])
 RestOf(b) == b[2] - b[3]
 BencObs(k, b) == IF FitsN(k, RestOf(b)) THEN <<0, b[3], b[2], -7>> \o P(k, RestOf(b)) \o <<-7, b[3], RestOf(b)>>
-                 ELSE <<-1>>
+                 ELSE <<-1, b[3], b[2]>>                      \* refused: the buffer is as it was (R5)
 \* first n unread octets, the buffer advances by n
 BencnObs(k, b, n) == IF n <= RestOf(b) /\ FitsN(k, n) THEN <<0, b[3] + n, b[2], -7>> \o P(k, n) \o <<-7, b[3], n>>
-                     ELSE <<-1>>
+                     ELSE <<-1, b[3], b[2]>>
 RECURSIVE ChunkData(_)
 ChunkData(cs) == IF cs = <<>> THEN <<>> ELSE Unread(Head(cs)) \o ChunkData(Tail(cs))
 \* a chunk list designates the unread content of its chunks from the active one on (act chunks in front are done with)
